@@ -9,6 +9,8 @@ from .. import cprgen
 from .C06 import WINDOW_HI
 
 LEVEL = "exploration"
+TECHNIQUE = 'runtime monitoring: reference CPR encoder as oracle (round trip decode(encode(x))) with metamorphic argument-swap relation'
+LEVEL_TEXT = 'Exploration: every NL band x hemisphere x newer parity reached by construction, boundary-directed and uniform positions; tolerance is the quantisation step the standard prescribes; ambiguous cases (within 1e-9 deg of a transition) are excluded and counted.'
 LEVEL_RULE = (
     "adsb.position / adsb.airborne_position called on even/odd airborne frames built by the reference CPR *encoder* from "
     "two positions <=1 NM apart; both argument orders, both time orders, int and datetime stamps, TC 9-18/20-22. Oracle: "
